@@ -7,8 +7,8 @@ Executable model of the formula engine's compiler and evaluator (C05, C13).
                                                            -> `pushOper` (with `popLoop`), `pushTok`, `finalize`
   * `_BaseHOFormulaBuilder._push / consumption / production`, `HigherOrderFormulaBuilder.build`
                                                            -> `HO`, `HO.toks` (replay of the deque operations), `hoBuild`
-  * the step classes' `apply` (`_formula_steps.py`)        -> `applyStep`; the arithmetic bodies are NOT written
-    here: they are `Extracted.Formula.bin*/un*`, regenerated from the source on every run
+  * the step classes' `apply` (`_formula_steps.py`)        -> `applyStep`; the arithmetic bodies (and `Clipper`'s)
+    are NOT written here: they are `Extracted.Formula.bin*/un*`, regenerated from the source on every run
   * `MetricFetcher.apply`                                  -> `fetch`
   * `FormulaEvaluator.apply` (after the inputs are fetched) -> `run`;  `FormulaEngine._run` loop -> `engineRun`
 
@@ -54,12 +54,9 @@ inductive Step where
   | clip (lo hi : Option Rat)                 -- `Clipper`
 deriving DecidableEq, Repr
 
-/-- `Clipper.apply`: `val = pop(); if min is not None: val = max(val, min); if max is not None: val =
-min(val, max); append(val)`. -/
-def clipVal (lo hi : Option Rat) (v : V) : M V :=
-  let v := match lo with | some l => PyF.max v (some l) | none => v
-  let v := match hi with | some h => PyF.min v (some h) | none => v
-  .ok v
+/-- `Clipper.apply` (body extracted from the source, like the operator steps): `lo` / `hi` are the two optional
+bounds handed to `Clipper(min_val, max_val)` by `push_clipper`. -/
+def clipVal (lo hi : Option Rat) (v : V) : M V := Extracted.Formula.unClipper lo hi v
 
 /-- `apply` of the operator steps (bodies extracted from the source). -/
 def applyOp : Op → List V → M (List V)
